@@ -40,6 +40,8 @@ struct RunResult
     std::uint64_t hash{0};  //!< hash of the full recorded history
     std::uint64_t shape{0};  //!< hash of the history *shape* (distinctness)
     bool nontrivial{false};
+    long weight{1};  //!< number of executions this result stands for
+    std::vector<std::uint64_t> extra_shapes;  //!< shapes of sub-executions
     json stats = json::object();  //!< counters, summed over runs
     json sample;  //!< short summary of this run for evidence
     std::vector<Violation> violations;
@@ -80,6 +82,8 @@ inline json result_to_json(RunResult const& r)
     j["hash"] = r.hash;
     j["shape"] = r.shape;
     j["nontrivial"] = r.nontrivial;
+    j["weight"] = r.weight;
+    j["xshapes"] = r.extra_shapes;
     j["stats"] = r.stats;
     j["sample"] = r.sample;
     j["viol"] = r.violations;
@@ -91,6 +95,9 @@ inline RunResult result_from_json(json const& j)
     r.hash = j.at("hash");
     r.shape = j.at("shape");
     r.nontrivial = j.at("nontrivial");
+    r.weight = j.value("weight", 1L);
+    if (j.contains("xshapes"))
+        r.extra_shapes = j["xshapes"].get<std::vector<std::uint64_t>>();
     r.stats = j.at("stats");
     r.sample = j.at("sample");
     r.violations = j.at("viol").get<std::vector<Violation>>();
